@@ -45,6 +45,7 @@ class Agg:
             "minimise_execs": 0,
             "wall": {},
             "digest_map": {},
+            "runs_by_op": {},
         }
 
     def bump(self, table, key, n=1):
@@ -55,7 +56,7 @@ class Agg:
         o = other
         for k in ("runs", "steps", "tasks", "sim_threads", "minimise_execs"):
             self.d[k] += o[k]
-        for table in ("runs_by_workload", "outcomes", "faults_fired", "probes", "violation_counts", "known_hits", "wall"):
+        for table in ("runs_by_workload", "outcomes", "faults_fired", "probes", "violation_counts", "known_hits", "wall", "runs_by_op"):
             for k, v in o[table].items():
                 self.bump(table, k, v)
         self.d["digests"] |= set(o["digests"])
@@ -423,6 +424,7 @@ def job_op(job):
             continue
         agg.d["runs"] += 1
         agg.bump("runs_by_workload", "A")
+        agg.bump("runs_by_op", f"{op}:A")
         agg.d["steps"] += rr.steps
         agg.d["tasks"] += rr.ntasks
         agg.d["sim_threads"] += rr.counters.get("threads", 0)
@@ -510,6 +512,7 @@ def job_op(job):
             continue
         agg.d["runs"] += 1
         agg.bump("runs_by_workload", "B")
+        agg.bump("runs_by_op", f"{op}:B")
         agg.d["steps"] += rr.steps
         agg.d["sim_threads"] += rr.counters.get("threads", 0)
         agg.bump("outcomes", "B:" + rr.outcome)
@@ -767,6 +770,7 @@ def write_evidence(tier, seed, d, wall, nviol, harness, jobs):
             ),
             "samples": d["samples"][:6],
             "runs_by_workload": d["runs_by_workload"],
+            "runs_by_operation_and_workload": d["runs_by_op"],
             "runs_per_hour": int(runs / hours),
             "seeds_per_hour": int(runs / hours),
             "logical_steps_simulated": d["steps"],
